@@ -52,13 +52,16 @@ package types
 //@   ensures[C12 emptykept] err == nil && len(StGet("nodeinfo", id).ServerEncryptionPrivateKeyBytes) == 0 ==> len(ret.ServerEncryptionPrivateKeyBytes) == 0
 
 //@ func types.LoadNodeInformationSetByNodeId
-//@   trusted -- body not verified yet: the loop needs an invariant over the not-yet-processed input elements
 //@   nopanic[*]
 //@   ensures[* failclosed] err != nil ==> ret == nil
 //@   ensures[* found] err == nil ==> ret != nil && fresh(ret) && forall j int :: 0 <= j && j < len(ret.Nodes) ==>
 //@   |   ret.Nodes[j] != nil && StHas("nodeinfo", ret.Nodes[j].Id) && ret.Nodes[j].NodeId == nodeid
 //@   |   && loadedFrom(ret.Nodes[j], StGet("nodeinfo", ret.Nodes[j].Id))
-//@   loop 0 invariant[shape] fresh(nodeInfosToReturn) && 0 <= rangeindex + 1
+//@   loop 0 invariant[shape] fresh(nodeInfosToReturn) && 0 <= rangeindex + 1 && nodeInfo != nil && fresh(nodeInfo)
+// every element the storage returned (processed or not: decryptForLoad only rewrites the sealed key and the wrapping key id)
+//@   loop 0 invariant[input] forall i int :: 0 <= i && i < len(nodeInfo.Nodes) ==>
+//@   |   nodeInfo.Nodes[i] != nil && fresh(nodeInfo.Nodes[i]) && StHas("nodeinfo", nodeInfo.Nodes[i].Id) && nodeInfo.Nodes[i].NodeId == nodeid
+//@   |   && loadedFrom(nodeInfo.Nodes[i], StGet("nodeinfo", nodeInfo.Nodes[i].Id))
 //@   loop 0 invariant[elems] forall j int :: 0 <= j && j < len(nodeInfosToReturn) ==>
 //@   |   nodeInfosToReturn[j] != nil && StHas("nodeinfo", nodeInfosToReturn[j].Id) && nodeInfosToReturn[j].NodeId == nodeid
 //@   |   && loadedFrom(nodeInfosToReturn[j], StGet("nodeinfo", nodeInfosToReturn[j].Id))
